@@ -207,6 +207,10 @@ def _int_items(ip, st, x):
 
 
 def b_bytes(ip, st, *args, **kwargs):
+    # a contract file's own model of bytes(...) (hook `call_real`, e.g. contracts/C05_input.py) keeps precedence
+    r = ip.task.call_real(ip, st, bytes, list(args), kwargs)
+    if r is not NotImplemented:
+        return r
     if len(args) == 1 and not kwargs and not isinstance(args[0], (str, bytes, int)) and (isinstance(args[0], (LRef, tuple, SSeq))):
         return bytes_of_ints(st, _int_items(ip, st, args[0]))
     if len(args) == 1 and not kwargs and getattr(args[0], "is_text", False) and args[0].kind == "bytes":
@@ -279,6 +283,9 @@ class SByteArray(ModelObj):
 
 
 def b_bytearray(ip, st, *args, **kwargs):
+    r = ip.task.call_real(ip, st, bytearray, list(args), kwargs)
+    if r is not NotImplemented:
+        return r
     if not args and not kwargs:
         return SByteArray(b"")
     if len(args) == 1 and not kwargs:
